@@ -138,12 +138,18 @@ pub(crate) fn mk_vm(registers: [Word; VM_REGISTER_COUNT], memory: MemoryInstance
 /// The same with a caller-supplied storage back end.
 pub(crate) fn mk_vm_with<S>(registers: [Word; VM_REGISTER_COUNT], memory: MemoryInstance, gas: GasCostsValuesV7, storage: S)
     -> Interpreter<MemoryInstance, S, Script, NotSupportedEcal, Normal> {
+    mk_vm_tx(registers, memory, gas, storage, Default::default())
+}
+
+/// The same for any transaction kind.
+pub(crate) fn mk_vm_tx<S, Tx>(registers: [Word; VM_REGISTER_COUNT], memory: MemoryInstance, gas: GasCostsValuesV7, storage: S, tx: Tx)
+    -> Interpreter<MemoryInstance, S, Tx, NotSupportedEcal, Normal> {
     Interpreter {
         registers,
         memory,
         frames: Vec::new(),
         receipts: Default::default(),
-        tx: Default::default(),
+        tx,
         initial_balances: Default::default(),
         input_contracts: Default::default(),
         input_contracts_index_to_output_index: Default::default(),
